@@ -2,4 +2,5 @@ import ArroyProofs.AuditCmd
 import ArroyProofs.Properties.C10
 import ArroyProofs.Properties.C10Reach
 import ArroyProofs.Properties.Unconditional
+import ArroyProofs.Properties.C10InPlace
 #audit Arroy.C10
